@@ -125,6 +125,7 @@ type hist struct {
 	lw    *logWatch
 	trace []string
 	dead  bool // a violation made the model and the server diverge: stop this history
+	incon bool // … or the fixture / a watchdog failed (inconclusive, no verdict)
 
 	opClass string // class of the last operation (part of violation keys)
 	opNT    bool   // last operation touched an element with tags or relationships
@@ -848,7 +849,7 @@ func (h *hist) opBlocksReload(v *vstate) error {
 	}
 	if !h.lw.wait(marker, 60*time.Second) {
 		h.c.Inconclusive("annotation reload did not log completion within 60 s")
-		h.dead = true
+		h.dead, h.incon = true, true
 		return nil
 	}
 	// a POST during the reload must be rejected or, once finished, accepted: wait until accepted
@@ -870,7 +871,7 @@ func (h *hist) opBlocksReload(v *vstate) error {
 	}
 	if !h.lw.wait("Completed labelsz", 60*time.Second) {
 		h.c.Inconclusive("labelsz reload did not log completion within 60 s")
-		h.dead = true
+		h.dead, h.incon = true, true
 		return nil
 	}
 	v.stale = false
@@ -902,7 +903,7 @@ func (h *hist) labelPost(v *vstate, rest string, body []byte, what string) (lmRe
 		h.c.Inconclusive(fmt.Sprintf("history %s: labelmap refused %s: %s", h.tag, what, drv.Trunc(string(r.Body), 300)))
 		h.c.Count("histories_abandoned_labelmap_refusal", 1)
 		h.c.Seen("labelmap_refusals", what)
-		h.dead = true
+		h.dead, h.incon = true, true
 		return out, false, nil
 	}
 	if len(r.Body) > 0 {
@@ -1890,7 +1891,11 @@ func (h *hist) run(nops int) error {
 		}
 	}
 	if h.dead {
-		h.c.Count("histories_stopped_at_first_violation", 1)
+		if h.incon {
+			h.c.Count("histories_abandoned_inconclusive", 1)
+		} else {
+			h.c.Count("histories_stopped_at_first_violation", 1)
+		}
 		return nil
 	}
 	// final sweep: every version, ancestors included
